@@ -85,13 +85,22 @@ def _observe_ticks(d0, d1, m, pre, rec):
     return d0, d1, ticks, labels
 
 
+def readback(label):
+    """The number a tick label reads as (None when it is not the text of a finite number)."""
+    try:
+        v = float(label)
+    except (TypeError, ValueError):
+        return None
+    return v if math.isfinite(v) else None
+
+
 def ticks_record(d0, d1, m, pre=None):
     rec = {"kind": "ticks", "m": m, "err": "", "dom": [repr(d0), repr(d1)]}
     try:
         with guard.limit(60):
             d0, d1, ticks, labels = _observe_ticks(d0, d1, m, pre, rec)
     except Exception as ex:          # (includes guard.CallTimeout: a call did not return)
-        rec.update({"err": type(ex).__name__, "mant": 1, "Q": 1, "lo": 0, "hi": 0, "tq": [], "n": [], "lab": [], "lq": []})
+        rec.update({"err": type(ex).__name__, "mant": 1, "Q": 1, "lo": 0, "hi": 0, "tq": [], "n": [], "lab": [], "lq": [], "lok": []})
         return rec
     lo, hi = min(d0, d1), max(d0, d1)
     if len(ticks) >= 2:
@@ -108,7 +117,8 @@ def ticks_record(d0, d1, m, pre=None):
     rec.update({
         "mant": mant, "Q": Q, "exp": exp, "lo": q(lo), "hi": q(hi),
         "tq": [q(t) for t in ticks], "n": [int(round(t / step)) for t in ticks],
-        "lab": labels, "lq": [q(float(x)) for x in labels],
+        "lab": labels, "lq": [q(readback(x)) if readback(x) is not None else 0 for x in labels],
+        "lok": [0 if readback(x) is None else 1 for x in labels],
     })
     return rec
 
